@@ -18,6 +18,8 @@ structure State where
   conn : Conn.St := {}
   chan : Chan.St := {}
   agg : Agg.St := {}
+  ch2 : List Nat := []      -- content of the channel of slices (aggregated channel type) of the channel class
+  aggm : List Nat := []     -- the messages of that type handed over so far
 
 def init : State := {}
 
@@ -132,6 +134,21 @@ def chHeld (t : Chan.St) : Bool := match t.pc with | .sending _ => true | _ => f
 per queued channel message) -/
 def chsettle (t : Chan.St) : Chan.St := Chan.settle (2 * t.queue.length + 8) t
 
+/-- the send into the channel of slices (`reflect.Send`, no capacity test) is a synchronous call of the reader that
+returns when the channel has room — for the instance it is what a handler that returns then is: the message is a
+`(false, m)` message of `Model/C05Chan.lean` whose "handler" is left as soon as there is room -/
+def chauto : Nat → State → State
+  | 0, s => s
+  | n + 1, s =>
+    match s.chan.pc with
+    | .handling m =>
+      if s.aggm.contains m && s.ch2.length < s.chan.cap then
+        match Chan.step s.chan .reader with
+        | some t => chauto n { s with chan := chsettle t, ch2 := s.ch2 ++ [m] }
+        | none => s
+      else s
+    | _ => s
+
 /-- the channel class (one instance whose type-4 messages go to a channel of `cap` places and whose type-3
 messages have a gated handler): `chstart <cap>`; `chsend <m>` (a channel message is handed over) and `chacc <m>`
 (a handler message), `chexit` (the running handler returns), `chclose`, `chwait <ms>` (time passes) — answer:
@@ -141,10 +158,12 @@ what the instance is doing and how many messages sit in the channel once the rea
 over and the reader is stopped **between the pop and `dispatchChannel`'s tests** (`held:<m>`); while it stands
 there only `chread`, `chdrain` and `chclose` happen (the others answer `held`); `chrel` lets it go on. -/
 def chstep (s : State) (toks : List String) : Option (State × String) :=
-  let fin (t : Chan.St) : Option (State × String) := some ({ s with chan := t }, showCh t)
+  let fin (t : Chan.St) : Option (State × String) :=
+    let s' := chauto (t.queue.length + s.ch2.length + 4) { s with chan := t }
+    some (s', showCh s'.chan)
   if chHeld s.chan && (match toks with
       | ["chsend", _] => true | ["chacc", _] => true | ["chexit"] => true | ["chwait", _] => true
-      | ["chhold", _] => true | _ => false) then some (s, "held") else
+      | ["chhold", _] => true | ["chagg", _] => true | _ => false) then some (s, "held") else
   match toks with
   | ["chhold", m] =>
     match m.toNat? with
@@ -160,7 +179,7 @@ def chstep (s : State) (toks : List String) : Option (State × String) :=
     if chHeld s.chan then fin (chsettle s.chan) else some (s, "not-held")
   | ["chstart", c] =>
     match c.toNat? with
-    | some c => if c = 0 then some (s, "bad-op") else some ({ s with chan := { cap := c } }, "ok")
+    | some c => if c = 0 then some (s, "bad-op") else some ({ s with chan := { cap := c }, ch2 := [], aggm := [] }, "ok")
     | none => some (s, "bad-op")
   | ["chsend", m] =>
     match m.toNat? with
@@ -176,10 +195,28 @@ def chstep (s : State) (toks : List String) : Option (State × String) :=
     | none => some (s, "bad-op")
   | ["chexit"] =>
     match s.chan.pc with
-    | .handling _ => match Chan.step s.chan .reader with
+    | .handling m =>
+      if s.aggm.contains m then some (s, "no-handler") else
+      match Chan.step s.chan .reader with
       | some t => fin (chsettle t)
       | none => some (s, "blocked")
     | _ => some (s, "no-handler")
+  | ["chagg", m] =>
+    match m.toNat? with
+    | some m =>
+      let s := if s.chan.closing then s else { s with aggm := m :: s.aggm }
+      match Chan.step s.chan (.accept false m) with
+      | some t =>
+        let s' := chauto (t.queue.length + s.ch2.length + 4) { s with chan := chsettle t }
+        some (s', showCh s'.chan)
+      | none => some (s, "blocked")
+    | none => some (s, "bad-op")
+  | ["chaggread"] =>
+    match s.ch2 with
+    | m :: rest =>
+      let s' := chauto (s.chan.queue.length + rest.length + 4) { s with ch2 := rest }
+      some (s', s!"got:{m}")
+    | [] => some (s, "empty")
   | ["chclose"] =>
     match Chan.step s.chan .close with
     | some t => if chHeld t then fin t else fin (chsettle t)
